@@ -119,6 +119,7 @@ def blank_family() -> list[list[tuple]]:
                 ("for", "i", empty, None, None, False, b1, b2), ("for", "i", two, None, None, False, b1, b2),
                 ("if", T, b1, [], b2), ("if", F, b1, [], b2), ("unless", T, b1, [], b2), ("unless", F, b1, [], b2),
                 ("if", F, b1, [(T, b2)], b1), ("if", F, b1, [(F, b1)], b2),
+                ("unless", T, b1, [(T, b2)], b1), ("unless", T, b1, [(F, b1)], b2),
                 ("case", ("lit", 1), [([("lit", 1)], b1)], b2), ("case", ("lit", 2), [([("lit", 1)], b1)], b2),
                 ("case", ("lit", 2), [([("lit", 1)], b1), ([("lit", 2), ("lit", 3)], b2)], b1),
             ]
@@ -127,6 +128,15 @@ def blank_family() -> list[list[tuple]]:
                     if w[0] == "liquid" and any(n[0] == "content" for blk in (b1, b2) for n in blk):
                         w = ("liquid", clf.to_lines_ast([inner]))
                     progs.append([("content", "["), w, ("content", "]")])
+    # capture over a name that is already bound (local, with scope, loop variable): the name is
+    # rebound to exactly the block's text, also when that text is empty or the block is blank
+    out_t = [("content", "["), ("output", ("path", "t", [])), ("content", "]")]
+    for body in [[], [("content", " ")], [("content", "x")], [("assign", "u", ("lit", 1))]]:
+        cap = ("capture", "t", body)
+        progs.append([("assign", "t", ("lit", "old")), cap] + out_t)
+        progs.append([("assign", "t", ("lit", "old")), ("with", [("t", ("lit", "w"))], [cap] + out_t)] + out_t)
+        progs.append([("capture", "t", [("content", "old")]), ("for", "t", two, None, None, False, [cap] + out_t, None)] + out_t)
+        progs.append([("capture", "t", [("content", "old")]), ("if", T, [cap], [], None)] + out_t)
     return progs
 
 
